@@ -2,6 +2,7 @@ package main
 
 import (
 	"fmt"
+	"os"
 	"go/types"
 	"strings"
 
@@ -1504,6 +1505,9 @@ func (f *Frame) havocRegion(st *State, r string) {
 	u := f.u
 	if f.keepRegions[r] {
 		return // protected region: no writer reachable from this call
+	}
+	if dbg := os.Getenv("GOVC_DEBUG_HAVOC"); dbg != "" && strings.Contains(r, dbg) {
+		fmt.Fprintf(os.Stderr, "havoc %s in %s at %s\n", r, f.fn.Name(), u.eng.pos(f.curBlock.Instrs[f.curIdx].Pos()))
 	}
 	old := u.heapGet(st.heap, r)
 	nh := u.sc.fresh("hv_"+sanitize(r), u.rsorts[r])
